@@ -60,7 +60,10 @@ impl<T> Drop for Park<'_, T> {
             while self.wait_kernel.load(Ordering::Relaxed) {
                 if std::thread::panicking() {
                     // std counts panics per thread: no coroutine switch while we unwind
+                    #[cfg(not(may_verif))]
                     std::thread::yield_now();
+                    #[cfg(may_verif)]
+                    crate::verif::thread::yield_now();
                 } else {
                     yield_now();
                 }
